@@ -10,7 +10,22 @@ package bebop
 
 // okTR: a tokenReader is usable and no I/O error has been lost: whenever its reader
 // reported an error other than io.EOF, some error is on record.
-//@ define okTR(tr *tokenReader) bool = tr != nil && tr.r != nil && tr.tree != nil && (ghost("ioerr", tr.r) == 1 ==> len(tr.errs) > 0)
+// and the error record is clean: it holds no io.EOF marker (Next removes the marker of a clean end of input).
+//@ define clean(tr *tokenReader) bool = forall i int :: 0 <= i && i < len(tr.errs) ==> !errIs(tr.errs[i].err, io.EOF)
+//@ define okTR(tr *tokenReader) bool = tr != nil && tr.r != nil && tr.tree != nil && (ghost("ioerr", tr.r) == 1 ==> len(tr.errs) > 0) && clean(tr)
+
+// step(tr): what every tokenizer step (find, the token builders, whitespace skipping, identifiers) does to the
+// error record. Errors only accumulate and earlier entries stay; every entry added except possibly the last
+// is a real error (not io.EOF-like); an I/O failure that happens during the step is recorded by a last entry
+// that is not io.EOF-like, so that Next cannot mistake it for the end of input; and if the last entry added is
+// io.EOF-like then the reader really is at the end of its input.
+//@ define stepGrow(tr *tokenReader) bool = tr.r == old(tr.r) && tr.tree == old(tr.tree) && len(tr.errs) >= old(len(tr.errs)) && (old(ghost("ioerr", tr.r)) == 1 ==> ghost("ioerr", tr.r) == 1)
+//@ define stepKeep(tr *tokenReader) bool = forall i int :: 0 <= i && i < old(len(tr.errs)) ==> tr.errs[i].err == old(tr.errs[i].err)
+//@ define stepReal(tr *tokenReader) bool = forall i int :: old(len(tr.errs)) <= i && i < len(tr.errs) - 1 ==> !errIs(tr.errs[i].err, io.EOF)
+//@ define stepIO(tr *tokenReader) bool = (ghost("ioerr", tr.r) == 1 && old(ghost("ioerr", tr.r)) != 1) ==> (len(tr.errs) > old(len(tr.errs)) && !errIs(tr.errs[len(tr.errs)-1].err, io.EOF))
+//@ define stepEOF(tr *tokenReader) bool = (len(tr.errs) > old(len(tr.errs)) && errIs(tr.errs[len(tr.errs)-1].err, io.EOF)) ==> ghost("ateof", tr.r) == 1
+// inside the loops of a step nothing has been recorded yet
+//@ define quiet(tr *tokenReader) bool = tr.r == old(tr.r) && tr.tree == old(tr.tree) && tr.r != nil && len(tr.errs) == old(len(tr.errs)) && (forall i int :: 0 <= i && i < old(len(tr.errs)) ==> tr.errs[i].err == old(tr.errs[i].err)) && ghost("ioerr", tr.r) == old(ghost("ioerr", tr.r))
 
 //@ func newTokenReader
 //@   ensures okTR(result) && isfresh(result) && len(result.errs) == 0 && ghost("canunread", result.r) == 0 && ghost("ioerr", result.r) == 0 && !result.keepNextToken
@@ -20,8 +35,9 @@ package bebop
 //@   requires tr.r != nil
 //@   ensures result1 == nil ==> ghost("canunread", tr.r) == 1 && ghost("ateof", tr.r) == 0 && ghost("ioerr", tr.r) == old(ghost("ioerr", tr.r))
 //@   ensures result1 != nil ==> ghost("canunread", tr.r) == old(ghost("canunread", tr.r))
-//@   ensures result1 == io.EOF ==> ghost("ateof", tr.r) == 1 && ghost("ioerr", tr.r) == old(ghost("ioerr", tr.r))
-//@   ensures (result1 != nil && result1 != io.EOF) ==> ghost("ioerr", tr.r) == 1
+//@   ensures errIs(result1, io.EOF) ==> ghost("ateof", tr.r) == 1 && ghost("ioerr", tr.r) == old(ghost("ioerr", tr.r))
+//@   ensures (result1 != nil && !errIs(result1, io.EOF)) ==> ghost("ioerr", tr.r) == 1
+//@   ensures (result1 != nil && result1 != io.EOF) ==> !errIs(result1, io.EOF)
 //@   ensures old(ghost("ioerr", tr.r)) == 1 ==> ghost("ioerr", tr.r) == 1
 //@   modifies tr.loc.lineChar, ghost("canunread", tr.r), ghost("ateof", tr.r), ghost("ioerr", tr.r)
 
@@ -32,7 +48,8 @@ package bebop
 //@   modifies tr.loc.lineChar, ghost("canunread", tr.r)
 
 //@ func (*tokenReader).addError
-//@   ensures len(tr.errs) == old(len(tr.errs)) + 1
+//@   ensures len(tr.errs) == old(len(tr.errs)) + 1 && tr.errs[old(len(tr.errs))].err == err
+//@   ensures forall i int :: 0 <= i && i < old(len(tr.errs)) ==> tr.errs[i].err == old(tr.errs[i].err)
 //@   modifies tr.errs, fresh(locError), alloc()
 
 // The static token tree is built once by newTokenTree; its shape is trusted (assumed contract).
@@ -47,21 +64,23 @@ package bebop
 // Token builders (the functions stored in tokenTree.build).
 //@ functype func(tr *tokenReader, concrete []byte) token
 //@   requires tr != nil && tr.r != nil && tr.tree != nil
-//@   ensures tr.r == old(tr.r) && tr.tree == old(tr.tree)
-//@   ensures len(tr.errs) >= old(len(tr.errs))
-//@   ensures (ghost("ioerr", tr.r) == 1 && old(ghost("ioerr", tr.r)) == 0) ==> len(tr.errs) > old(len(tr.errs))
-//@   ensures old(ghost("ioerr", tr.r)) == 1 ==> ghost("ioerr", tr.r) == 1
+//@   ensures [GROW] stepGrow(tr)
+//@   ensures [KEEP] stepKeep(tr)
+//@   ensures [REAL] stepReal(tr)
+//@   ensures [IOREC] stepIO(tr)
+//@   ensures [EOFMARK] stepEOF(tr)
 //@   modifies tr.errs, tr.loc.lineChar, tr.loc.line, tr.nextToken, tr.lastToken, ghost("canunread", tr.r), ghost("ateof", tr.r), ghost("ioerr", tr.r), fresh(locError), fresh(byte), tr(), hw(), alloc()
 
 //@ func (*tokenTree).find
 //@   requires v != nil
 //@   requires tr != nil && tr.r != nil && tr.tree != nil
 //@   requires len(concrete) > 0 ==> ghost("canunread", tr.r) == 1
-//@   ensures tr.r == old(tr.r) && tr.tree == old(tr.tree)
-//@   ensures len(tr.errs) >= old(len(tr.errs))
-//@   ensures (ghost("ioerr", tr.r) == 1 && old(ghost("ioerr", tr.r)) == 0) ==> len(tr.errs) > old(len(tr.errs))
-//@   ensures old(ghost("ioerr", tr.r)) == 1 ==> ghost("ioerr", tr.r) == 1
-//@   invariant loop 1: tr.r == old(tr.r) && tr.tree == old(tr.tree) && tr.r != nil && len(tr.errs) == old(len(tr.errs)) && ghost("ioerr", tr.r) == old(ghost("ioerr", tr.r))
+//@   ensures [GROW] stepGrow(tr)
+//@   ensures [KEEP] stepKeep(tr)
+//@   ensures [REAL] stepReal(tr)
+//@   ensures [IOREC] stepIO(tr)
+//@   ensures [EOFMARK] stepEOF(tr)
+//@   invariant loop 1: quiet(tr)
 //@   invariant loop 1: len(concrete) > 0 ==> ghost("canunread", tr.r) == 1
 //@   ensures [UNREAD] (!result1 && len(tr.errs) == old(len(tr.errs))) ==> ghost("canunread", tr.r) == 1
 //@   assume before "concrete = append(concrete, b)": t != nil
@@ -69,10 +88,11 @@ package bebop
 
 //@ func (*tokenTree).findFirst
 //@   requires v != nil && tr != nil && tr.r != nil && tr.tree != nil
-//@   ensures tr.r == old(tr.r) && tr.tree == old(tr.tree)
-//@   ensures len(tr.errs) >= old(len(tr.errs))
-//@   ensures (ghost("ioerr", tr.r) == 1 && old(ghost("ioerr", tr.r)) == 0) ==> len(tr.errs) > old(len(tr.errs))
-//@   ensures old(ghost("ioerr", tr.r)) == 1 ==> ghost("ioerr", tr.r) == 1
+//@   ensures [GROW] stepGrow(tr)
+//@   ensures [KEEP] stepKeep(tr)
+//@   ensures [REAL] stepReal(tr)
+//@   ensures [IOREC] stepIO(tr)
+//@   ensures [EOFMARK] stepEOF(tr)
 //@   ensures [UNREAD] (!result1 && len(tr.errs) == old(len(tr.errs))) ==> ghost("canunread", tr.r) == 1
 //@   modifies tr.errs, tr.loc.lineChar, tr.loc.line, tr.nextToken, tr.lastToken, ghost("canunread", tr.r), ghost("ateof", tr.r), ghost("ioerr", tr.r), fresh(locError), fresh(byte), any(string), tr(), hw(), alloc()
 
@@ -86,61 +106,71 @@ package bebop
 //@   modifies nothing
 //@ func numberToken
 //@   requires tr != nil && tr.r != nil && tr.tree != nil
-//@   ensures tr.r == old(tr.r) && tr.tree == old(tr.tree)
-//@   ensures len(tr.errs) >= old(len(tr.errs))
-//@   ensures (ghost("ioerr", tr.r) == 1 && old(ghost("ioerr", tr.r)) == 0) ==> len(tr.errs) > old(len(tr.errs))
-//@   ensures old(ghost("ioerr", tr.r)) == 1 ==> ghost("ioerr", tr.r) == 1
+//@   ensures [GROW] stepGrow(tr)
+//@   ensures [KEEP] stepKeep(tr)
+//@   ensures [REAL] stepReal(tr)
+//@   ensures [IOREC] stepIO(tr)
+//@   ensures [EOFMARK] stepEOF(tr)
 //@   modifies tr.errs, tr.loc.lineChar, tr.loc.line, tr.nextToken, tr.lastToken, ghost("canunread", tr.r), ghost("ateof", tr.r), ghost("ioerr", tr.r), fresh(locError), fresh(byte), any(string), tr(), hw(), alloc()
-//@   invariant loop 1: tr.r == old(tr.r) && tr.tree == old(tr.tree) && tr.r != nil && len(tr.errs) == old(len(tr.errs)) && ghost("ioerr", tr.r) == old(ghost("ioerr", tr.r))
+//@   invariant loop 1: quiet(tr)
 //@ func lineCommentToken
 //@   requires tr != nil && tr.r != nil && tr.tree != nil
-//@   ensures tr.r == old(tr.r) && tr.tree == old(tr.tree)
-//@   ensures len(tr.errs) >= old(len(tr.errs))
-//@   ensures (ghost("ioerr", tr.r) == 1 && old(ghost("ioerr", tr.r)) == 0) ==> len(tr.errs) > old(len(tr.errs))
-//@   ensures old(ghost("ioerr", tr.r)) == 1 ==> ghost("ioerr", tr.r) == 1
+//@   ensures [GROW] stepGrow(tr)
+//@   ensures [KEEP] stepKeep(tr)
+//@   ensures [REAL] stepReal(tr)
+//@   ensures [IOREC] stepIO(tr)
+//@   ensures [EOFMARK] stepEOF(tr)
 //@   modifies tr.errs, tr.loc.lineChar, tr.loc.line, tr.nextToken, tr.lastToken, ghost("canunread", tr.r), ghost("ateof", tr.r), ghost("ioerr", tr.r), fresh(locError), fresh(byte), any(string), tr(), hw(), alloc()
 //@ func blockCommentToken
 //@   requires tr != nil && tr.r != nil && tr.tree != nil
-//@   ensures tr.r == old(tr.r) && tr.tree == old(tr.tree)
-//@   ensures len(tr.errs) >= old(len(tr.errs))
-//@   ensures (ghost("ioerr", tr.r) == 1 && old(ghost("ioerr", tr.r)) == 0) ==> len(tr.errs) > old(len(tr.errs))
-//@   ensures old(ghost("ioerr", tr.r)) == 1 ==> ghost("ioerr", tr.r) == 1
+//@   ensures [GROW] stepGrow(tr)
+//@   ensures [KEEP] stepKeep(tr)
+//@   ensures [REAL] stepReal(tr)
+//@   ensures [IOREC] stepIO(tr)
+//@   ensures [EOFMARK] stepEOF(tr)
 //@   modifies tr.errs, tr.loc.lineChar, tr.loc.line, tr.nextToken, tr.lastToken, ghost("canunread", tr.r), ghost("ateof", tr.r), ghost("ioerr", tr.r), fresh(locError), fresh(byte), any(string), tr(), hw(), alloc()
-//@   invariant loop 1: tr.r == old(tr.r) && tr.tree == old(tr.tree) && tr.r != nil && len(tr.errs) == old(len(tr.errs)) && ghost("ioerr", tr.r) == old(ghost("ioerr", tr.r))
+//@   invariant loop 1: quiet(tr)
 //@ func stringLiteralToken
 //@   requires tr != nil && tr.r != nil && tr.tree != nil
-//@   ensures tr.r == old(tr.r) && tr.tree == old(tr.tree)
-//@   ensures len(tr.errs) >= old(len(tr.errs))
-//@   ensures (ghost("ioerr", tr.r) == 1 && old(ghost("ioerr", tr.r)) == 0) ==> len(tr.errs) > old(len(tr.errs))
-//@   ensures old(ghost("ioerr", tr.r)) == 1 ==> ghost("ioerr", tr.r) == 1
+//@   ensures [GROW] stepGrow(tr)
+//@   ensures [KEEP] stepKeep(tr)
+//@   ensures [REAL] stepReal(tr)
+//@   ensures [IOREC] stepIO(tr)
+//@   ensures [EOFMARK] stepEOF(tr)
 //@   modifies tr.errs, tr.loc.lineChar, tr.loc.line, tr.nextToken, tr.lastToken, ghost("canunread", tr.r), ghost("ateof", tr.r), ghost("ioerr", tr.r), fresh(locError), fresh(byte), any(string), tr(), hw(), alloc()
-//@   invariant loop 1: tr.r == old(tr.r) && tr.tree == old(tr.tree) && tr.r != nil && len(tr.errs) == old(len(tr.errs)) && ghost("ioerr", tr.r) == old(ghost("ioerr", tr.r))
+//@   invariant loop 1: quiet(tr)
 
 // skipFollowingWhitespace must not lose an I/O error and must only unread a byte it has read.
 //@ func (*tokenReader).skipFollowingWhitespace
 //@   requires tr != nil && tr.r != nil && tr.tree != nil
-//@   ensures tr.r == old(tr.r) && tr.tree == old(tr.tree)
-//@   ensures len(tr.errs) >= old(len(tr.errs))
-//@   ensures (ghost("ioerr", tr.r) == 1 && old(ghost("ioerr", tr.r)) == 0) ==> len(tr.errs) > old(len(tr.errs))
-//@   ensures old(ghost("ioerr", tr.r)) == 1 ==> ghost("ioerr", tr.r) == 1
+//@   ensures [GROW] stepGrow(tr)
+//@   ensures [KEEP] stepKeep(tr)
+//@   ensures [REAL] stepReal(tr)
+//@   ensures [IOREC] stepIO(tr)
+//@   ensures [EOFMARK] stepEOF(tr)
 //@   modifies tr.errs, tr.loc.lineChar, tr.loc.line, tr.nextToken, tr.lastToken, ghost("canunread", tr.r), ghost("ateof", tr.r), ghost("ioerr", tr.r), fresh(locError), fresh(byte), any(string), tr(), hw(), alloc()
-//@   invariant loop 1: tr.r == old(tr.r) && tr.tree == old(tr.tree) && tr.r != nil && len(tr.errs) == old(len(tr.errs)) && ghost("ioerr", tr.r) == old(ghost("ioerr", tr.r))
+//@   invariant loop 1: quiet(tr)
 
 //@ func (*tokenReader).nextIdent
 //@   requires tr != nil && tr.r != nil && tr.tree != nil
-//@   ensures tr.r == old(tr.r) && tr.tree == old(tr.tree)
-//@   ensures len(tr.errs) >= old(len(tr.errs))
-//@   ensures (ghost("ioerr", tr.r) == 1 && old(ghost("ioerr", tr.r)) == 0) ==> len(tr.errs) > old(len(tr.errs))
-//@   ensures old(ghost("ioerr", tr.r)) == 1 ==> ghost("ioerr", tr.r) == 1
+//@   ensures [GROW] stepGrow(tr)
+//@   ensures [KEEP] stepKeep(tr)
+//@   ensures [REAL] stepReal(tr)
+//@   ensures [IOREC] stepIO(tr)
+//@   ensures [EOFMARK] stepEOF(tr)
+//@   ensures !result ==> len(tr.errs) > old(len(tr.errs)) && !errIs(tr.errs[len(tr.errs)-1].err, io.EOF)
+//@   ensures result ==> len(tr.errs) == old(len(tr.errs))
 //@   modifies tr.errs, tr.loc.lineChar, tr.loc.line, tr.nextToken, tr.lastToken, ghost("canunread", tr.r), ghost("ateof", tr.r), ghost("ioerr", tr.r), fresh(locError), fresh(byte), any(string), tr(), hw(), alloc()
-//@   invariant loop 1: tr.r == old(tr.r) && tr.tree == old(tr.tree) && tr.r != nil && len(tr.errs) == old(len(tr.errs)) && ghost("ioerr", tr.r) == old(ghost("ioerr", tr.r))
+//@   invariant loop 1: quiet(tr)
 
-// Next: no panic; errors only accumulate, except that the io.EOF marker of a clean end of input is removed again.
+// Next: no panic. The error record stays clean and keeps every earlier entry; the only entry ever removed is the
+// io.EOF marker of a clean end of input added during this very call. When Next reports that there is no token, either
+// an error is on record or the reader is at the end of its input.
 //@ func (*tokenReader).Next
 //@   requires okTR(tr)
-//@   ensures okTR(tr) && tr.r == old(tr.r) && tr.tree == old(tr.tree)
-//@   ensures [NODROP] (!result && old(len(tr.errs)) > 0) ==> len(tr.errs) > 0
-// the error removed from the record is the io.EOF marker findFirst has just added (errors.Is(lastErr, io.EOF)),
-// never an earlier error and never the record of an I/O failure
-//@   assume after "tr.errs = tr.errs[:len(tr.errs)-1]": len(tr.errs) >= errsBefore && (ghost("ioerr", tr.r) == 1 ==> len(tr.errs) > 0)
+//@   ensures tr != nil && tr.r != nil && tr.tree != nil && tr.r == old(tr.r) && tr.tree == old(tr.tree)
+//@   ensures [IOREC] ghost("ioerr", tr.r) == 1 ==> len(tr.errs) > 0
+//@   ensures [CLEAN] clean(tr)
+//@   ensures [NODROP] len(tr.errs) >= old(len(tr.errs)) && (forall i int :: 0 <= i && i < old(len(tr.errs)) ==> tr.errs[i].err == old(tr.errs[i].err))
+//@   ensures [ATEOF] (!result && len(tr.errs) == 0) ==> ghost("ateof", tr.r) == 1
 //@   modifies tr.errs, tr.keepNextToken, tr.loc.lineChar, tr.loc.line, tr.nextToken, tr.lastToken, ghost("canunread", tr.r), ghost("ateof", tr.r), ghost("ioerr", tr.r), fresh(locError), fresh(byte), any(string), tr(), hw(), alloc()
